@@ -49,6 +49,7 @@
 #include "opentelemetry/trace/trace_id.h"
 #include "opentelemetry/trace/trace_state.h"
 #include "vh.h"
+#include "vh_guard.h"
 
 const char *vh_property_id = "C16";
 
@@ -82,6 +83,16 @@ std::string hex(const A &a)
 // ------------------------------------------------------------------------------------- carrier
 // Values live in exact-size heap blocks (no terminator, no slack): a read one byte past a header
 // value is an ASan report.  Absent headers read as a default (null, 0) view.
+// In "guard page" cases (a fixed function of the case's length, see set_guard_mode) Get() hands out a copy
+// that ends exactly at an inaccessible page instead: an over-read by code ASan does not see (strtoul and
+// other libc functions it does not intercept) is then a SIGSEGV.
+bool g_guard_mode = false;
+void set_guard_mode(vh::Case &c)
+{
+  g_guard_mode = (c.rd.remaining() % 4) == 3;
+  if (g_guard_mode)
+    c.tag("carrier:values-end-at-a-guard-page");
+}
 class Carrier : public context::propagation::TextMapCarrier
 {
 public:
@@ -90,13 +101,14 @@ public:
     std::string key;
     std::unique_ptr<char[]> val;
     size_t len;
+    std::shared_ptr<vh::GuardedBytes> guard;
   };
   nostd::string_view Get(nostd::string_view key) const noexcept override
   {
     std::string k(key.data(), key.size());
     for (auto &e : entries_)
       if (e.key == k)
-        return nostd::string_view(e.val.get(), e.len);
+        return e.guard ? nostd::string_view(e.guard->data(), e.guard->size()) : nostd::string_view(e.val.get(), e.len);
     return nostd::string_view();
   }
   void Set(nostd::string_view key, nostd::string_view value) noexcept override
@@ -108,14 +120,18 @@ public:
   {
     std::unique_ptr<char[]> p(new char[v.size()]);
     std::memcpy(p.get(), v.data(), v.size());
+    std::shared_ptr<vh::GuardedBytes> g;
+    if (g_guard_mode)
+      g.reset(new vh::GuardedBytes(v));
     for (auto &e : entries_)
       if (e.key == k)
       {
-        e.val = std::move(p);
-        e.len = v.size();
+        e.val   = std::move(p);
+        e.len   = v.size();
+        e.guard = g;
         return;
       }
-    entries_.push_back(Entry{k, std::move(p), v.size()});
+    entries_.push_back(Entry{k, std::move(p), v.size(), g});
   }
   bool has(const std::string &k) const
   {
@@ -1022,6 +1038,7 @@ VH_TARGET(rt_inject_extract, 1,
           "held multi headers of another context or an earlier injection by the same propagator; distinct = distinct (flags, ids, remote, "
           "caller, stale) text")
 {
+  set_guard_mode(c);
   vh::Reader &rd = c.rd;
   uint8_t flags  = rd.u8();  // every flags byte, uniformly
   const char *tcls = "", *scls = "";
@@ -1185,6 +1202,7 @@ VH_TARGET(ex_struct, 1,
           "missing/extra field (multi headers empty or really absent), both B3 styles present, or a byte "
           "edit; distinct = distinct header text (absent headers and a X-B3-Flags header are part of it)")
 {
+  set_guard_mode(c);
   vh::Reader &rd  = c.rd;
   size_t kind     = rd.weighted({30, 22, 18, 30});  // single, multi, both, jaeger
   int caller_kind = static_cast<int>(rd.below(3));
@@ -1338,6 +1356,7 @@ VH_TARGET(b3_single_bytes, 1,
           "separated fields and one of the first two is a non-empty all-hex string (near the "
           "grammar); distinct = distinct byte string")
 {
+  set_guard_mode(c);
   std::string v = c.rd.bytes(c.rd.remaining());
   c.note("b3(" + std::to_string(v.size()) + ")='" + vh::show(v) + "'\n");
   c.nontrivial = some_hex_id(v, '-');
@@ -1351,6 +1370,7 @@ VH_TARGET(b3_multi_bytes, 1,
           "non-empty all-hex string, or the b3 part is near the grammar; distinct = distinct byte "
           "string")
 {
+  set_guard_mode(c);
   std::string all = c.rd.bytes(c.rd.remaining());
   std::string part[4];
   size_t pos = 0;
@@ -1387,6 +1407,7 @@ VH_TARGET(jaeger_bytes, 1,
           "':' separated fields and one of the first two is a non-empty all-hex string; distinct = "
           "distinct byte string")
 {
+  set_guard_mode(c);
   std::string v = c.rd.bytes(c.rd.remaining());
   c.note("uber-trace-id(" + std::to_string(v.size()) + ")='" + vh::show(v) + "'\n");
   c.nontrivial = some_hex_id(v, ':');
@@ -1412,6 +1433,7 @@ VH_TARGET(b3_helpers, 1,
           "shorter or odd-length id, upper case, over-long, empty, the null view, 'd', an undocumented or "
           "multi-byte sampling value; distinct = distinct (helper, argument) text")
 {
+  set_guard_mode(c);
   vh::Reader &rd = c.rd;
   size_t which   = rd.below(3);  // 0 TraceIdFromHex, 1 SpanIdFromHex, 2 TraceFlagsFromHex
   bool null_view = false;
